@@ -122,7 +122,10 @@ def crash_site(tb):
     return site or "outside-pdpy11"
 
 
-def assemble(files, charset="bk", timeout=None, want_symbols=False, repair=True,
+DEFAULT_TIMEOUT = 30.0
+
+
+def assemble(files, charset="bk", timeout=DEFAULT_TIMEOUT, want_symbols=False, repair=True,
              make_handler=None, trace=False):
     """files: list of (absolute-ish name, text). Mirrors what main_cli does."""
     p = pd()
@@ -156,6 +159,9 @@ def assemble(files, charset="bk", timeout=None, want_symbols=False, repair=True,
         except CaseTimeout:
             out.kind = "timeout"
             out.exc = ("CaseTimeout", "watchdog", "")
+        except MemoryError:
+            out.kind = "crash"
+            out.exc = ("MemoryError", "address-space limit of the harness", "")
         except RecursionError as ex:
             out.kind = "crash"
             out.exc = ("RecursionError", crash_site(ex.__traceback__), "")
